@@ -25,6 +25,7 @@ pub const TARGETS: &[Target] = &[
     ("gate", "Gate", gate as Gen),
     ("gatesig", "GateSig", gatesig as Gen),
     ("gatereg", "GateReg", gatereg as Gen),
+    ("gatetab", "GateTab", gatetab as Gen),
 ];
 
 type R = Result<String, String>;
@@ -1064,4 +1065,425 @@ fn gatereg(repo: &Path) -> R {
     out.push_str(&shapes.iter().map(|(a, b, c)| format!("  ({}, {}, {:?})", lit_ident(a), lit_ident(b), c)).collect::<Vec<_>>().join(",\n"));
     out.push_str("]\n\nend RotoV.Gen.GateReg\n");
     Ok(out)
+}
+
+// ------------------------------------------------------------------ gatetab
+
+/// is the item (or statement) compiled only with the feature `verif-hooks`?
+fn is_hook(attrs: &[syn::Attribute]) -> bool {
+    attrs.iter().any(|a| a.path().is_ident("cfg") && toks(&a.meta).contains("verif-hooks"))
+}
+
+fn flat_tokens(ts: proc_macro2::TokenStream, out: &mut Vec<String>) {
+    for tt in ts {
+        match tt {
+            proc_macro2::TokenTree::Group(g) => {
+                let (o, c) = match g.delimiter() {
+                    proc_macro2::Delimiter::Parenthesis => ("(", ")"),
+                    proc_macro2::Delimiter::Brace => ("{", "}"),
+                    proc_macro2::Delimiter::Bracket => ("[", "]"),
+                    proc_macro2::Delimiter::None => ("", ""),
+                };
+                out.push(o.into());
+                flat_tokens(g.stream(), out);
+                out.push(c.into());
+            }
+            other => out.push(other.to_string()),
+        }
+    }
+}
+
+/// every struct literal `…::<ty>::<variant> { … }` below a node: the text of its field `field`
+struct StructLits<'a> {
+    ty: &'a str,
+    variant: &'a str,
+    field: &'a str,
+    found: Vec<String>,
+}
+impl<'ast> syn::visit::Visit<'ast> for StructLits<'_> {
+    fn visit_expr_struct(&mut self, s: &'ast syn::ExprStruct) {
+        let segs: Vec<String> = s.path.segments.iter().map(|x| x.ident.to_string()).collect();
+        let n = segs.len();
+        if n >= 1 && segs[n - 1] == self.variant && (self.ty.is_empty() || (n >= 2 && segs[n - 2] == self.ty)) {
+            let f = s.fields.iter().find(|f| f.member.to_token_stream().to_string() == self.field);
+            self.found.push(f.map(|f| toks(&f.expr)).unwrap_or_else(|| "<absent>".into()));
+        }
+        syn::visit::visit_expr_struct(self, s);
+    }
+}
+
+fn struct_lits(block: &syn::Block, ty: &str, variant: &str, field: &str) -> Vec<String> {
+    let mut v = StructLits { ty, variant, field, found: vec![] };
+    syn::visit::Visit::visit_block(&mut v, block);
+    v.found
+}
+
+fn struct_lits_file(file: &syn::File, ty: &str, variant: &str, field: &str) -> Vec<String> {
+    let mut v = StructLits { ty, variant, field, found: vec![] };
+    for it in &file.items {
+        let hook = match it {
+            syn::Item::Fn(f) => is_hook(&f.attrs),
+            syn::Item::Impl(i) => is_hook(&i.attrs),
+            syn::Item::Mod(m) => is_hook(&m.attrs),
+            _ => false,
+        };
+        if !hook {
+            syn::visit::Visit::visit_item(&mut v, it);
+        }
+    }
+    v.found
+}
+
+/// the variant names a pattern `P::A { .. } | P::B(..)` admits (head path's last segment)
+fn pat_variants(p: &Pat, out: &mut Vec<String>) -> Result<(), String> {
+    match p {
+        Pat::Struct(s) => out.push(s.path.segments.last().map(|x| x.ident.to_string()).unwrap_or_default()),
+        Pat::TupleStruct(s) => out.push(s.path.segments.last().map(|x| x.ident.to_string()).unwrap_or_default()),
+        Pat::Path(s) => out.push(s.path.segments.last().map(|x| x.ident.to_string()).unwrap_or_default()),
+        Pat::Or(o) => {
+            for c in &o.cases {
+                pat_variants(c, out)?;
+            }
+        }
+        Pat::Paren(q) => pat_variants(&q.pat, out)?,
+        other => return Err(format!("pattern `{}` outside the model", toks(other))),
+    }
+    Ok(())
+}
+
+/// `gatetab` → `Generated/GateTab.lean`: the way from a declaration of a
+/// script to an entry of `Module::functions` (the table `get_function`
+/// consults), stage by stage:
+///  * `Mir::lower` (`tree`): which `ast::Declaration` variants are lowered, by
+///    which method, and what kind of item each method builds;
+///  * `lir::lower` (`item`): `match item.ty` — a MIR function becomes an
+///    `ItemKind::Function { signature: Some(signature) }`, a MIR constant an
+///    `ItemKind::Constant`; the generated clone/drop/eq items carry
+///    `signature: None` and names `::generated::…`;
+///  * `ModuleBuilder::declare_function`: the `let … else { return; }` that
+///    only lets `ItemKind::Function` through, and the one
+///    `self.functions.insert(name.to_string(), FunctionInfo { …, signature: signature.clone() })`;
+///    every other mention of the field `functions` in src/codegen/mod.rs is a read.
+fn gatetab(repo: &Path) -> R {
+    // ---- stage 1: src/mir/lower.rs
+    let mir = find::parse(repo, "src/mir/lower.rs")?;
+    let tree = find::func(&mir, "tree", None)?;
+    let ms = find::matches_on(&tree.block, "d");
+    let [m] = &ms[..] else {
+        return Err(format!("Mir::lower (`tree`): expected one `match d`, found {}", ms.len()));
+    };
+    let mut mir_arms: Vec<(String, String)> = vec![];
+    let mut wildcard = false;
+    for arm in &m.arms {
+        if arm.guard.is_some() {
+            return Err("Mir::lower: a guarded arm over the declarations is outside the model".into());
+        }
+        if let Pat::Wild(_) = &arm.pat {
+            if toks(&arm.body) != "{}" {
+                return Err(format!("Mir::lower: the wildcard arm is not empty: `{}`", toks(&arm.body)));
+            }
+            wildcard = true;
+            continue;
+        }
+        let mut vs = vec![];
+        pat_variants(&arm.pat, &mut vs)?;
+        let Pat::TupleStruct(ts) = &arm.pat else {
+            return Err(format!("Mir::lower: arm pattern `{}` outside the model", toks(&arm.pat)));
+        };
+        let binder = ts.elems.first().map(toks).unwrap_or_default();
+        // the body: `{ items.insert(<name>, Lowerer::new(…).<method>(<binder>)); }`
+        let Expr::Block(b) = &*arm.body else {
+            return Err(format!("Mir::lower: arm for {vs:?} is not a block"));
+        };
+        let [Stmt::Expr(Expr::MethodCall(ins), _)] = &b.block.stmts[..] else {
+            return Err(format!("Mir::lower: arm for {vs:?}: expected the single statement `items.insert(…)`"));
+        };
+        if toks(&ins.receiver) != "items" || ins.method != "insert" || ins.args.len() != 2 {
+            return Err(format!("Mir::lower: arm for {vs:?}: expected `items.insert(name, item)`"));
+        }
+        if toks(&ins.args[0]) != format!("type_info.resolved_name(&{binder}.ident)") {
+            return Err(format!("Mir::lower: arm for {vs:?}: item keyed by `{}`", toks(&ins.args[0])));
+        }
+        let Expr::MethodCall(low) = &ins.args[1] else {
+            return Err(format!("Mir::lower: arm for {vs:?}: the item is not `Lowerer::new(…).<method>(…)`"));
+        };
+        if !toks(&low.receiver).starts_with("Lowerer::new(") || low.args.len() != 1 || toks(&low.args[0]) != binder {
+            return Err(format!("Mir::lower: arm for {vs:?}: `{}` outside the model", toks(&ins.args[1])));
+        }
+        for v in vs {
+            mir_arms.push((v, low.method.to_string()));
+        }
+    }
+    if !wildcard {
+        // without `_ => {}` the match is exhaustive: every variant must be listed, which rustc checks
+    }
+    let decl_variants = find::enum_variants(&find::parse(repo, "src/ast.rs")?, "Declaration")?;
+    // what each lowering method builds
+    let mut mir_kinds: Vec<(String, String, String)> = vec![];
+    let fl = find::func(&mir, "function_like", None)?;
+    let fl_fn = struct_lits(&fl.block, "ItemKind", "Function", "signature");
+    let fl_c = struct_lits(&fl.block, "ItemKind", "Constant", "ty");
+    if fl_fn != ["signature"] || !fl_c.is_empty() {
+        return Err(format!("mir function_like: expected exactly one `ItemKind::Function {{ signature, .. }}` (found {fl_fn:?}, constants {fl_c:?})"));
+    }
+    let fl_s = toks(&fl.block);
+    require(&fl_s, "letsignature=Signature{types:Vec::new(),parameter_types:parameter_types.iter().map(|x|&x.1).cloned().collect(),return_type:return_type.clone(),};", "mir function_like: the signature handed on")?;
+    require(&fl_s, "letname=self.type_info.resolved_name(ident);letname=self.type_info.full_name(&name);", "mir function_like: the item's name")?;
+    let mut methods: Vec<String> = mir_arms.iter().map(|a| a.1.clone()).collect();
+    methods.sort();
+    methods.dedup();
+    for meth in &methods {
+        let f = find::func(&mir, meth, None)?;
+        let s = toks(&f.block);
+        let direct_fn = struct_lits(&f.block, "ItemKind", "Function", "signature");
+        let direct_c = struct_lits(&f.block, "ItemKind", "Constant", "ty");
+        let via_fl = s.matches("self.function_like(").count();
+        // the prefix a method puts before the identifier: `format!("test#{}", …)`
+        let mut prefix = String::new();
+        if let Some(i) = s.find("format!(\"") {
+            let rest = &s[i + 9..];
+            if let Some(j) = rest.find("{}\"") {
+                prefix = rest[..j].to_string();
+            }
+        }
+        let kind = match (via_fl, direct_fn.len(), direct_c.len()) {
+            (1, 0, 0) => {
+                let Ok(Expr::MethodCall(t)) = find::tail_expr(&f.block) else {
+                    return Err(format!("mir {meth}: `self.function_like(…)` is not the value of the method"));
+                };
+                if t.method != "function_like" {
+                    return Err(format!("mir {meth}: tail is `{}`", toks(t)));
+                }
+                "Function"
+            }
+            (0, 0, 1) => {
+                require(&s, "letresolved_name=self.type_info.resolved_name(&constant.ident);letname=self.type_info.full_name(&resolved_name);", "mir constant: the item's name")?;
+                prefix.clear(); // `constant#…` only names the lowerer's scope, the item is `full_name(resolved_name(ident))`
+                "Constant"
+            }
+            other => return Err(format!("mir {meth}: builds items in a way outside the model {other:?}")),
+        };
+        mir_kinds.push((meth.clone(), kind.to_string(), prefix));
+    }
+
+    // ---- stage 2: src/lir/lower.rs and the helper generators
+    let lir = find::parse(repo, "src/lir/lower.rs")?;
+    let item = find::func(&lir, "item", None)?;
+    let kms = find::matches_on(&item.block, "item.ty");
+    // the second `match item.ty` (by value) builds the kind; the first (`&item.ty`) only picks the return type
+    let Some(km) = kms.iter().find(|m| m.arms.iter().any(|a| !struct_lits_expr(&a.body, "ItemKind", "Function", "signature").is_empty())) else {
+        return Err("lir item: no `match item.ty` that builds `ItemKind::Function`".into());
+    };
+    let mut lir_arms: Vec<(String, String, bool)> = vec![];
+    for arm in &km.arms {
+        let mut vs = vec![];
+        pat_variants(&arm.pat, &mut vs)?;
+        let fs = struct_lits_expr(&arm.body, "ItemKind", "Function", "signature");
+        let cs = struct_lits_expr(&arm.body, "ItemKind", "Constant", "ty");
+        let (to, has_sig) = match (&fs[..], &cs[..]) {
+            ([sig], []) if sig == "Some(signature)" => {
+                // `signature` must be the field of the MIR item bound by this arm's pattern
+                let Pat::Struct(ps) = &arm.pat else { return Err("lir item: Function arm pattern".into()) };
+                let bound = ps.fields.iter().any(|f| f.member.to_token_stream().to_string() == "signature" && toks(&f.pat) == "signature");
+                if !bound {
+                    return Err("lir item: `signature` is not the MIR item's signature".into());
+                }
+                ("Function", true)
+            }
+            ([], [_]) => ("Constant", false),
+            other => return Err(format!("lir item: arm for {vs:?} builds {other:?}: outside the model")),
+        };
+        for v in vs {
+            lir_arms.push((v, to.to_string(), has_sig));
+        }
+    }
+    require(&toks(&item.block), "letname=item.name;", "lir item: the LIR item keeps the MIR item's name")?;
+    let all_fn = struct_lits_file(&lir, "ItemKind", "Function", "signature");
+    if all_fn != ["Some(signature)"] {
+        return Err(format!("src/lir/lower.rs: `ItemKind::Function` built at other places than `item`: {all_fn:?}"));
+    }
+    let mut helper_items: Vec<(String, bool)> = vec![];
+    let dir = repo.join("src/lir/lower");
+    let mut files: Vec<String> = std::fs::read_dir(&dir)
+        .map_err(|e| format!("{}: {e}", dir.display()))?
+        .filter_map(|e| e.ok())
+        .map(|e| e.file_name().to_string_lossy().to_string())
+        .filter(|n| n.ends_with(".rs"))
+        .collect();
+    files.sort();
+    for fname in files {
+        let rel = format!("src/lir/lower/{fname}");
+        let f = find::parse(repo, &rel)?;
+        let sigs = struct_lits_file(&f, "ItemKind", "Function", "signature");
+        if !struct_lits_file(&f, "ItemKind", "Constant", "ty").is_empty() {
+            return Err(format!("{rel}: builds an `ItemKind::Constant`: outside the model"));
+        }
+        if sigs.is_empty() {
+            continue;
+        }
+        if sigs != ["None"] {
+            return Err(format!("{rel}: generated items with signatures {sigs:?}: outside the model (expected one item with `signature: None`)"));
+        }
+        // its name: `let ident = format!("::generated::<op>_{type_id}").into();` … `Item { name: ident, … }`
+        let names = struct_lits_file(&f, "", "Item", "name");
+        let text = toks(&f);
+        let mut prefix = None;
+        if let Some(i) = text.find("letident=format!(\"") {
+            let rest = &text[i + 18..];
+            if let Some(j) = rest.find("{type_id}\").into();") {
+                prefix = Some(rest[..j].to_string());
+            }
+        }
+        let (Some(prefix), true) = (prefix, names == ["ident"]) else {
+            return Err(format!("{rel}: the name of the generated item is outside the model (names {names:?})"));
+        };
+        helper_items.push((prefix, false));
+    }
+    // other files of src/lir must not build items at all
+    for extra in ["src/lir/mod.rs", "src/lir/eval.rs", "src/lir/value.rs", "src/lir/print.rs"] {
+        if let Ok(f) = find::parse(repo, extra) {
+            if !struct_lits_file(&f, "ItemKind", "Function", "signature").is_empty() {
+                return Err(format!("{extra}: builds an `ItemKind::Function`: outside the model"));
+            }
+        }
+    }
+    let lir_kinds = find::enum_variants(&find::parse(repo, "src/lir/mod.rs")?, "ItemKind")?;
+
+    // ---- stage 3: src/codegen/mod.rs
+    let cg = find::parse(repo, "src/codegen/mod.rs")?;
+    let df = find::func(&cg, "declare_function", Some("ModuleBuilder"))?;
+    let stmts: Vec<&Stmt> = df.block.stmts.iter().filter(|s| !matches!(s, Stmt::Local(l) if is_hook(&l.attrs))).collect();
+    let Some(Stmt::Local(first)) = stmts.first().copied() else {
+        return Err("declare_function: does not begin with the destructuring `let lir::Item { … } = func else { return; };`".into());
+    };
+    let (Some(init), Pat::Struct(item_pat)) = (&first.init, &first.pat) else {
+        return Err("declare_function: first statement is not a destructuring of the item".into());
+    };
+    if toks(&init.expr) != "func" || item_pat.path.segments.last().is_none_or(|s| s.ident != "Item") {
+        return Err(format!("declare_function: first statement destructures `{}`", toks(&init.expr)));
+    }
+    let Some((_, div)) = &init.diverge else {
+        return Err("declare_function: the destructuring of the item has no `else { return; }`: every kind of item reaches `functions.insert` (a constant's initialiser would become retrievable)".into());
+    };
+    if toks(div) != "{return;}" {
+        return Err(format!("declare_function: the else branch is `{}`", toks(div)));
+    }
+    let mut accepts = vec![];
+    let mut binds_signature = false;
+    let mut binds_name = false;
+    for fp in &item_pat.fields {
+        match fp.member.to_token_stream().to_string().as_str() {
+            "kind" => {
+                pat_variants(&fp.pat, &mut accepts)?;
+                if let Pat::Struct(kp) = &*fp.pat {
+                    binds_signature = kp.fields.iter().any(|f| f.member.to_token_stream().to_string() == "signature" && toks(&f.pat) == "signature");
+                }
+            }
+            "name" => binds_name = toks(&fp.pat) == "name",
+            _ => {}
+        }
+    }
+    if accepts.is_empty() || !binds_signature || !binds_name {
+        return Err(format!("declare_function: the pattern must bind `name` and `kind: ItemKind::… {{ signature, .. }}` (accepts {accepts:?})"));
+    }
+    // the one insertion, a top-level statement; no other way out of the function
+    let mut inserts = 0;
+    for s in &stmts[1..] {
+        let t = toks(*s);
+        if t.starts_with("self.functions.insert(") {
+            let Stmt::Expr(Expr::MethodCall(mc), _) = s else { return Err("declare_function: insert shape".into()) };
+            if mc.args.len() != 2 || toks(&mc.args[0]) != "name.to_string()" {
+                return Err(format!("declare_function: entry keyed by `{}`", mc.args.first().map(toks).unwrap_or_default()));
+            }
+            let Expr::Struct(fi) = &mc.args[1] else { return Err("declare_function: the entry is not a `FunctionInfo { … }` literal".into()) };
+            let field = |n: &str| fi.fields.iter().find(|f| f.member.to_token_stream().to_string() == n).map(|f| toks(&f.expr));
+            if path_str(&fi.path) != "FunctionInfo" || field("signature").as_deref() != Some("signature.clone()") || field("id").as_deref() != Some("func_id") {
+                return Err(format!("declare_function: entry `{}` outside the model", toks(&mc.args[1])));
+            }
+            inserts += 1;
+        } else if s.to_token_stream().into_iter().any(|tt| tt.to_string() == "return") || t.contains("else{") && t.contains("return") {
+            return Err(format!("declare_function: statement `{t}` may leave the function before the insertion"));
+        }
+    }
+    if inserts != 1 {
+        return Err(format!("declare_function: expected one top-level `self.functions.insert(…)`, found {inserts}"));
+    }
+    // every mention of the field `functions` in the file, classified
+    let mut uses: Vec<(String, usize)> = vec![];
+    let mut bump = |k: &str| match uses.iter_mut().find(|u| u.0 == k) {
+        Some(u) => u.1 += 1,
+        None => uses.push((k.to_string(), 1)),
+    };
+    for it in &cg.items {
+        let hook = match it {
+            syn::Item::Fn(f) => is_hook(&f.attrs),
+            syn::Item::Impl(i) => is_hook(&i.attrs),
+            _ => false,
+        };
+        if hook {
+            continue;
+        }
+        let mut tk = vec![];
+        flat_tokens(it.to_token_stream(), &mut tk);
+        for i in 0..tk.len() {
+            if tk[i] != "functions" {
+                continue;
+            }
+            let prev = if i > 0 { tk[i - 1].as_str() } else { "" };
+            let next = tk.get(i + 1).map(|s| s.as_str()).unwrap_or("");
+            let next2 = tk.get(i + 2).map(|s| s.as_str()).unwrap_or("");
+            let after: String = tk[i + 1..(i + 8).min(tk.len())].concat();
+            let kind = match (prev, next) {
+                (".", ".") if ["get", "keys", "insert"].contains(&next2) => next2.to_string(),
+                (".", "[") => "index".to_string(),
+                (_, ":") if after.starts_with(":HashMap<String,FunctionInfo>") => "field".to_string(),
+                (_, ":") if after.starts_with(":HashMap::new()") => "new".to_string(),
+                (_, ":") if after.starts_with(":self.functions") => "move".to_string(),
+                (".", ",") | (".", "}") if i >= 2 && tk[i - 2] == "self" => "moved".to_string(),
+                _ => {
+                    let ctx: String = tk[i.saturating_sub(4)..(i + 6).min(tk.len())].join(" ");
+                    return Err(format!("src/codegen/mod.rs: use of the field `functions` outside the model: `… {ctx} …`"));
+                }
+            };
+            bump(&kind);
+        }
+    }
+    let n_insert = uses.iter().find(|u| u.0 == "insert").map(|u| u.1).unwrap_or(0);
+    if n_insert != 1 {
+        return Err(format!("src/codegen/mod.rs: {n_insert} insertions into `functions` (expected the one of declare_function)"));
+    }
+    uses.sort();
+
+    // ---- output
+    let pairs = |v: &[(String, String)]| v.iter().map(|(a, b)| format!("({}, {})", lit_ident(a), lit_ident(b))).collect::<Vec<_>>().join(",\n  ");
+    let mut out = String::new();
+    out.push_str("/- GENERATED by /verif/extract from src/mir/lower.rs, src/lir/lower.rs, src/lir/lower/*.rs, src/codegen/mod.rs — do not edit. -/\nimport RotoV.Model.GateTab\nnamespace RotoV.Gen.GateTab\nopen RotoV.Gate RotoV.GateTab\n\n");
+    out.push_str(&format!("/-- variants of `ast::Declaration` -/\ndef declVariants : List Ident := [{}]\n\n", decl_variants.iter().map(|v| lit_ident(v)).collect::<Vec<_>>().join(", ")));
+    out.push_str(&format!("/-- `Mir::lower`: (declaration variant, lowering method); wildcard arm `_ => {{}}` present: {wildcard} -/\ndef mirArms : List (Ident × Ident) := [\n  {}]\n\n", pairs(&mir_arms)));
+    out.push_str(&format!(
+        "/-- (lowering method, `mir::ItemKind` variant it builds, prefix before the identifier) -/\ndef mirKinds : List (Ident × Ident × Ident) := [\n  {}]\n\n",
+        mir_kinds.iter().map(|(a, b, c)| format!("({}, {}, {})", lit_ident(a), lit_ident(b), lit_ident(c))).collect::<Vec<_>>().join(",\n  ")
+    ));
+    out.push_str(&format!(
+        "/-- `lir::lower`: (`mir::ItemKind` variant, `lir::ItemKind` variant, carries `signature: Some(signature)`) -/\ndef lirArms : List (Ident × Ident × Bool) := [\n  {}]\n\n",
+        lir_arms.iter().map(|(a, b, c)| format!("({}, {}, {c})", lit_ident(a), lit_ident(b))).collect::<Vec<_>>().join(",\n  ")
+    ));
+    out.push_str(&format!(
+        "/-- generated helper items: (name prefix, carries a signature) -/\ndef helperItems : List (Ident × Bool) := [\n  {}]\n\n",
+        helper_items.iter().map(|(a, b)| format!("({}, {b})", lit_ident(a))).collect::<Vec<_>>().join(",\n  ")
+    ));
+    out.push_str(&format!("/-- variants of `lir::ItemKind` -/\ndef lirItemKinds : List Ident := [{}]\n\n", lir_kinds.iter().map(|v| lit_ident(v)).collect::<Vec<_>>().join(", ")));
+    out.push_str(&format!("/-- variants of `lir::ItemKind` that `declare_function` lets through to `functions.insert` -/\ndef declareAccepts : List Ident := [{}]\n\n", accepts.iter().map(|v| lit_ident(v)).collect::<Vec<_>>().join(", ")));
+    out.push_str(&format!(
+        "/-- every mention of the field `functions` in src/codegen/mod.rs, by kind -/\ndef functionsFieldUses : List (String × Nat) := [{}]\n\n",
+        uses.iter().map(|(k, n)| format!("({k:?}, {n})")).collect::<Vec<_>>().join(", ")
+    ));
+    out.push_str("def pipeline : Pipeline := ⟨mirArms, mirKinds, lirArms, helperItems, declareAccepts⟩\n\nend RotoV.Gen.GateTab\n");
+    Ok(out)
+}
+
+fn struct_lits_expr(e: &Expr, ty: &str, variant: &str, field: &str) -> Vec<String> {
+    let mut v = StructLits { ty, variant, field, found: vec![] };
+    syn::visit::Visit::visit_expr(&mut v, e);
+    v.found
 }
